@@ -76,9 +76,9 @@ def plan(rep):
         exh = [['FamLen'], ['FamChainQ'], ['FamLen2Q', 'FamCor1'], ['FamGradQ', 'FamCallQ', 'FamGradB', 'FamCall3Q'], ['FamSubstQ', 'FamMutQ']]
         sim = ['FamSim1', 'FamSim1O', 'FamSimLen', 'FamSim1M']
     else:
-        exh = [['FamLen', 'FamCor1', 'FamMut1'], ['FamLen2', 'FamGradB'], ['FamGrad', 'FamSubst2'], ['FamCall2'], ['FamChain'], ['FamLen4'], ['FamGrad3'], ['FamSubst'], ['FamCall']]
+        exh = [['FamChain'], ['FamLen4'], ['FamGrad3'], ['FamSubst'], ['FamCall'], ['FamCall2'], ['FamLen', 'FamCor1', 'FamMut1'], ['FamLen2', 'FamGradB'], ['FamGrad', 'FamSubst2']]
         sim = ['FamSim1', 'FamSim1O', 'FamSimLen', 'FamSim1M']
-    nsim = 150 if quick else 2500
+    nsim = 150 if quick else 1500
     mutants = ['update-nontransitive', 'call-raw-union'] if quick else sorted(SPEC_MUTANTS)
     return exh, sim, nsim, mutants
 
@@ -447,8 +447,8 @@ def replay_phase(rep, tables, byfam, sim, rng):
     quick = rep.tier == 'quick'
     R = Replayer1(tables)
     R.allrev = not quick
-    per_bad = 12 if quick else 100000        # per (family, verdicts, rule, operations, unknown lengths) class: strings that must be refused
-    per_ok = 5 if quick else 400             # ... valid strings replayed in every way, with their values
+    per_bad = 12 if quick else 150           # per (family, verdicts, rule, operations, unknown lengths) class: strings that must be refused
+    per_ok = 5 if quick else 12              # ... valid strings replayed in every way, with their values
     nlight = 0
     worst = {}
     seen = set()
